@@ -3,6 +3,7 @@ import Driver.ExecOps
 import Driver.CodecOps
 import Driver.ChecksumOps
 import Driver.DiagOps
+import Driver.ServerOps
 import Driver.FramerOps
 import Driver.PayloadOps
 import Driver.DevIdOps
@@ -23,6 +24,7 @@ def dispatch (j : Json) : P Json := do
   | "pdecode" => opPDecode j
   | "feed" => opFeed j
   | "build" => opBuild j
+  | "server" => opServer j
   | "crc" => opCrc j
   | "lrc" => opLrc j
   | "crctable" => opCrcTable j
